@@ -18,6 +18,7 @@ def histories(tier, rng):
     H = lambda w: {"op": "hold", "w": w, "n": 0}
     R = lambda w: {"op": "release", "w": w, "n": 0}
     K = lambda w: {"op": "kill", "w": w, "n": 0}
+    KH = lambda w: {"op": "killheld", "w": w, "n": 0}
     # systematic: fill-and-skip, all-full drop, dead worker replaced at dispatch, rotation
     for size in (1, 2, 3):
         for cap in (1, 2):
@@ -27,6 +28,9 @@ def histories(tier, rng):
             add(size, cap, [K(1), S(), S(), S()])                                              # dead worker found at dispatch
             add(size, cap, [H(1), S(), S(), K(1), S(), S()] + [S() for _ in range(size)])         # messages queued at a worker that dies are lost
             add(size, cap, [C(), C(), H(1), C(), C(), R(1), C()])
+            # a worker killed while it is busy is a zombie until its handler returns: the pool must treat it as dead at once
+            add(size, cap, [H(1), S(), KH(1)] + [S() for _ in range(size)] + [C() for _ in range(size + 1)] + [R(1), S(), C()])
+            add(size, cap, [H(1), C(), S(), KH(1), C(), S(), R(1), C()])
             add(size, cap, [{"op": "add", "w": 0, "n": 1}, S(), S(), S(), S(), {"op": "remove", "w": 0, "n": 1}, S(), S(), S()])
     # workers added later are part of the round: when every original worker is full the message must reach an added one
     for size in (1, 2):
@@ -48,7 +52,8 @@ def histories(tier, rng):
             elif c < 0.55: ops.append(C())
             elif c < 0.70: ops.append(H(rng.randint(1, nw)))
             elif c < 0.82: ops.append(R(rng.randint(1, nw)))
-            elif c < 0.90: ops.append(K(rng.randint(1, nw))); nw += 0
+            elif c < 0.87: ops.append(K(rng.randint(1, nw))); nw += 0
+            elif c < 0.90: ops.append(KH(rng.randint(1, nw)))
             elif c < 0.95: ops.append({"op": "add", "w": 0, "n": rng.choice([1, 2])}); nw += 2
             else: ops.append({"op": "remove", "w": 0, "n": 1})
             if ops[-1]["op"] in ("send", "call"):
